@@ -83,6 +83,8 @@ class Contracts:
                         continue
                     variant = meta.get("variant")
                     self.refs[(rm.target + "." + (meta.get("target") or short), variant)] = (rm, fi, meta)
+        T.CONTRACTED.clear()
+        T.CONTRACTED.update(q for q, _ in self.refs)
 
     def for_property(self, prop):
         return sorted((q, v) for (q, v), (rm, fi, meta) in self.refs.items() if prop in meta.get("props", []))
@@ -101,6 +103,23 @@ class Contracts:
             raise ParamMismatch(f"{qualname}: code has parameters {cl.params}, reference {rl.params}")
         rl.param_names = cl.params
         cterm, rterm = cl.term(), rl.term()
+        if cfi.name in ("__init__", "__new__"):
+            # a constructor may initialise additional attributes the specification does not mention (they are judged where they
+            # are read): stores to attributes of the object under construction that the reference never assigns are ignored
+            obj = T.V(cl.params[0]) if cl.params else None
+            ref_attrs = {x[2] for x in T.walk(rterm) if x[0] == 'setattr' and x[1] == obj} | \
+                        {x[2] for x in T.walk(rterm) if x[0] == 'upd'}
+            extra = set()
+
+            def strip(t):
+                if t[0] in ('ret', 'raise', 'break', 'continue') and len(t) == 3:
+                    keep = tuple(e for e in t[2] if not (e[0] == 'setattr' and e[1] == obj and e[2] not in ref_attrs))
+                    extra.update(e[2] for e in t[2] if e[0] == 'setattr' and e[1] == obj and e[2] not in ref_attrs)
+                    return (t[0], t[1], keep)
+                return None
+            if obj is not None and ref_attrs:
+                cterm = T.replace(cterm, strip)
+            self.last_extra_attrs = sorted(extra)
         cdef = ('dict', tuple(('kw', T.C(k), v) for k, v in cl.defaults()))
         rdef = ('dict', tuple(('kw', T.C(k2), v) for (k, v), k2 in zip(rl.defaults(), [k for k, _ in cl.defaults()])))
         if len(cl.defaults()) != len(rl.defaults()):
